@@ -71,7 +71,7 @@ def run(pid, tier):
     R = Run(pid, tier)
     extract.write()
     kk = known_keys(pid)
-    level = 1 if tier == "quick" else 2
+    level = 1      # both tiers: TLC needs more than half an hour to build the universe set of level 2 (see DESIGN 0.6)
     R.cov["rule"] = ("every literal of the valid and malformed families of Literals.tla at this level x its contexts "
                      "(TLC, exhaustive); each replayed into the real Lexer; distinct = distinct (pre, literal, post)")
     try:
